@@ -111,6 +111,12 @@ func newTypedArshalers[Coder any](as ...*typedArshalers[Coder]) *typedArshalers[
 	return &a
 }
 
+// hasFromAny reports whether any function operates on a type used for
+// arbitrary JSON values. A nil list (e.g., WithMarshalers(nil)) has no functions.
+func (a *typedArshalers[Coder]) hasFromAny() bool {
+	return a != nil && a.fromAny
+}
+
 func (a *typedArshalers[Coder]) lookup(fnc func(*Coder, addressableValue, *jsonopts.Struct) error, t reflect.Type) (func(*Coder, addressableValue, *jsonopts.Struct) error, bool) {
 	if a == nil {
 		return fnc, false
